@@ -947,7 +947,9 @@ class RZILTransformer(Transformer):
         if result:
             return self.add_op(result)
         op_type = CompareOpType(items[1])
-        a, b = self.cast_operands(a=items[0], b=items[2], immutable_a=False)
+        a = self.promotion_cast(items[0])
+        b = self.promotion_cast(items[2])
+        a, b = self.cast_operands(a=a, b=b, immutable_a=False)
         return self.add_op(CompareOp(f"op_{op_type.name}", a, b, op_type))
 
     def for_loop(self, items):
